@@ -497,6 +497,45 @@ class DefUse:
                     if q is None:
                         return self.sym(o, depth + 1) if len(pr0) == 2 else ('?',)
                     return self.sym_place({'l': q['l'], 'pr': list(q['pr']) + pr0[2:]}, depth + 1)
+        # `(cf as Continue).0` where cf is defined by several `Try::branch(r_i)` calls (the continuation of a folded helper is duplicated per return path): the payload
+        # comes from the r_i that can be a success value; with exactly one of them it is `(r_i as Ok).0`
+        if len(pr0) >= 2 and pr0[0]['k'] == 'downcast' and pr0[0].get('variant') == 'Continue' and pr0[1]['k'] == 'field' and len(ds) > 1 and all(si is None for (bb, si) in ds):
+            cands = []
+            for (bb, si) in ds:
+                tb = fn.term(bb)
+                cb = callee_of(tb) if tb['k'] == 'call' else None
+                a = op_place(tb['args'][0]) if cb and cb['path'].endswith('Try::branch') and tb.get('args') else None
+                if a is None or a['pr']:
+                    cands = None
+                    break
+                ok_variant = None
+                fails_only = True
+                todo, seen_l = [a['l']], set()
+                while todo:
+                    l2 = todo.pop()
+                    if l2 in seen_l:
+                        continue
+                    seen_l.add(l2)
+                    for (b2, s2) in self.defs.get(l2, []):
+                        if s2 is None:
+                            fails_only = False
+                            continue
+                        rv2 = fn.blocks[b2]['stmts'][s2]['rv']
+                        if rv2['k'] == 'agg' and rv2.get('ak') == 'adt':
+                            if rv2.get('variant') in ('Ok', 'Some'):
+                                fails_only = False
+                                ok_variant = rv2.get('variant')
+                        elif rv2['k'] == 'use' and op_place(rv2['op']) is not None and not op_place(rv2['op'])['pr']:
+                            todo.append(op_place(rv2['op'])['l'])
+                        else:
+                            fails_only = False
+                if not fails_only:
+                    cands.append((a['l'], ok_variant or 'Ok'))
+            if cands is not None:
+                cands = sorted(set(cands))
+            if cands is not None and len(cands) == 1:
+                q = {'l': cands[0][0], 'pr': [dict(pr0[0], variant=cands[0][1]), pr0[1]] + pr0[2:]}
+                return self.sym_place(q, depth + 1)
         base = self.sym_local(p['l'], depth + 1, want_fields=fields)
         if not fields:
             return base
